@@ -24,6 +24,12 @@ type tokStruct struct {
 	N   int
 }
 
+// tokErrPay is an ordinary payload whose type happens to implement error (a
+// report with an Error() method carried as data): it is a value, not a failure.
+type tokErrPay struct{ Tok string }
+
+func (p tokErrPay) Error() string { return "report " + p.Tok }
+
 // simErr is the base ("sentinel") error of a failing callback.
 type simErr struct{ Tok string }
 
@@ -89,6 +95,8 @@ func (r *registry) mkPay(kind, tok string) any {
 		v = &tokBox{Tok: tok}
 	case "struct":
 		return tokStruct{Tok: tok, N: 7}
+	case "errpay":
+		return tokErrPay{Tok: tok}
 	case "nil":
 		return nil
 	case "nilptr": // typed nils must keep their type through every hand-over
@@ -217,6 +225,8 @@ func (r *registry) describe(v any) string {
 			return x.Tok
 		}
 		return x.Tok + "(copy)"
+	case tokErrPay:
+		return x.Tok
 	case tokStruct:
 		if x.N != 7 {
 			return x.Tok + "(changed)"
@@ -313,6 +323,7 @@ type nodeState struct {
 	itemAtt map[int]int
 	started int // exec_start events of the current visit (barrier gate)
 	depIn   int // first attempts of "dep"-gated items started in the current visit
+	nilSeen int // nil-argument exec calls of the current visit (Any-style exec, error-Result items)
 }
 
 type harness struct {
@@ -428,6 +439,7 @@ func (h *harness) prep(n *NodeSpec, shared *flyt.SharedStore) (any, error) {
 		st.attempt = 0
 		st.started = 0
 		st.depIn = 0
+		st.nilSeen = 0
 		st.itemAtt = map[int]int{}
 		e.V = v
 		e.S1 = h.storeID(shared)
@@ -556,9 +568,25 @@ func (h *harness) exec(n *NodeSpec, arg any, anyStyle bool) (val any, errRes err
 			item = 9000 // not an item of this batch
 		}
 	}
+	nilArgErrItem := n.Kind == "batch" && anyStyle && argDesc == "nil"
 	var v, a int
 	simrt.EmitF(simrt.Event{Kind: "exec_start", N: n.ID, S1: argDesc}, nil, func(e *simrt.Event) {
 		v = st.cur
+		if nilArgErrItem {
+			// sequential batch, Any-style exec: the k-th nil argument belongs to the
+			// k-th item that prep handed over as an error Result
+			k := 0
+			for ii, it := range n.visit(v).Items {
+				if it.Pay == "erritem" {
+					if k == st.nilSeen {
+						item = ii
+						break
+					}
+					k++
+				}
+			}
+			st.nilSeen++
+		}
 		if item >= 0 {
 			st.itemAtt[item]++
 			a = st.itemAtt[item]
